@@ -32,6 +32,8 @@ StrForms == IF Alphabet = "small" THEN {Blk("text", 0, "na")} ELSE {Blk("text", 
 GMsgs(role) == {[role |-> role, form |-> "blocks", blocks |-> bs] :
                    bs \in UNION {[1..q -> (IF role = "user" THEN UB ELSE AB)] : q \in 1..MaxBlocks}}
                \cup {[role |-> role, form |-> "str", blocks |-> <<b>>] : b \in StrForms}
+               \* a turn whose content is JSON null / has no content member at all: not a Messages request
+               \cup (IF Alphabet = "small" THEN {} ELSE {[role |-> role, form |-> f, blocks |-> <<>>] : f \in {"null", "absent"}})
 RolesAt(n) == IF Roles = "alt" THEN {IF n % 2 = 1 THEN "user" ELSE "assistant"} ELSE {"user", "assistant"}
 BaseCfg(b) == IF b = "rich" THEN RichCfg ELSE DefaultCfg
 
@@ -60,7 +62,8 @@ Deviate == /\ ndev < MaxDev
 NewMsg == /\ DevAnywhere /\ Len(req.msgs) < MaxMsgs
           /\ \E role \in RolesAt(Len(req.msgs) + 1) :
                 \E m \in {[role |-> role, form |-> "blocks", blocks |-> <<b>>] : b \in (IF role = "user" THEN UB ELSE AB)}
-                          \cup {[role |-> role, form |-> "str", blocks |-> <<b>>] : b \in StrForms} :
+                          \cup {[role |-> role, form |-> "str", blocks |-> <<b>>] : b \in StrForms}
+                          \cup {[role |-> role, form |-> f, blocks |-> <<>>] : f \in {"null", "absent"}} :
                    req' = [req EXCEPT !.msgs = Append(@, m)]
           /\ steps' = steps + 1
           /\ UNCHANGED <<res, hres, act, dev, ndev, lastd>>
